@@ -55,6 +55,12 @@ inline std::vector<T> multi_channel_refine_weights(
         sum_of_new_weights += new_weights[i];
     }
 
+    if (sum_of_new_weights == T())
+    {
+        // no information at all - keep the weights instead of dividing zero by zero
+        return weights;
+    }
+
     T new_sum = T();
 
     for (T& weight : new_weights)
